@@ -5,7 +5,15 @@
 using namespace vf;
 int main(int argc, char **argv) {
     Args A(argc, argv);
-    int32_t lambda = (int32_t)A.i("lambda", 128);
+    // --seq=a,b,c : several requests within ONE process (history dependence); --lambda=x : a single request
+    std::vector<int32_t> seq;
+    if (A.has("seq")) {
+        std::stringstream ss(A.s("seq"));
+        std::string tok;
+        while (std::getline(ss, tok, ',')) seq.push_back((int32_t)strtol(tok.c_str(), nullptr, 10));
+    } else seq.push_back((int32_t)A.i("lambda", 128));
+    std::vector<TFheGateBootstrappingParameterSet *> live;
+    for (int32_t lambda : seq) {
     TFheGateBootstrappingParameterSet *p = new_default_gate_bootstrapping_parameters(lambda);
     J j = J::object();
     j.set("lambda", lambda).set("ks_t", p->ks_t).set("ks_basebit", p->ks_basebit);
@@ -26,7 +34,9 @@ int main(int argc, char **argv) {
     j.set("second_call_equal", q->ks_t == p->ks_t && q->in_out_params->n == p->in_out_params->n && q->tgsw_params->l == p->tgsw_params->l &&
                                    q->tgsw_params->tlwe_params->alpha_min == p->tgsw_params->tlwe_params->alpha_min);
     delete_gate_bootstrapping_parameters(q);
-    delete_gate_bootstrapping_parameters(p);
+    live.push_back(p); // earlier sets stay alive while later ones are requested
     printf("%s\n", j.str().c_str());
+    }
+    for (auto *p : live) delete_gate_bootstrapping_parameters(p);
     return 0;
 }
